@@ -317,7 +317,7 @@ package gomatrixserverlib
 
 //@ func (*allowerContext).update
 //@   property C09
-//@   requires a != nil && provider != nil && a.userIDQuerier != nil && ctxWF(*a)
+//@   requires a != nil && provider != nil && a.userIDQuerier != nil && ctxWF(*a) && providerLaw(provider)
 //@   requires !createErr(provider, a.userIDQuerier) ==> verKnown(string(provider.Create()[0].Version()))
 //@   ensures provider: a.provider == provider && a.userIDQuerier == old(a.userIDQuerier) && a.roomID == old(a.roomID)
 //@   ensures wf: ctxWF(*a)
